@@ -75,7 +75,7 @@ def run_config(cfg):
         return bad, events, 0
     if np.any(X < lb - tol) or np.any(X > ub + tol):
         bad.append(("C11.intensity-bounds", where0, [lb.tolist(), ub.tolist()], X.tolist()))
-    if mask is not None and np.max(np.abs(X[np.array(mask) == 0])) > tol:
+    if mask is not None and np.any(np.array(mask) == 0) and np.max(np.abs(X[np.array(mask) == 0])) > tol:
         bad.append(("C11.mask", where0, 0.0, float(np.max(np.abs(X[np.array(mask) == 0])))))
     if eq and n_layers > 1 and np.ptp(X.sum(1)) > 2 * tol * m:
         bad.append(("C11.equal-l1", where0, 0.0, float(np.ptp(X.sum(1)))))
